@@ -72,6 +72,35 @@ def chain_cases():
                        "spelled": head[:60], "bufsizes": [1, 7, 4096], "features": ["chain-depth-%d" % n]}
 
 
+def flood_case():
+    """70 000 distinct names read in one array, then a few new names written twice (once with a #xx escape): names
+    made of the same characters are one and the same object (ISO 32000-1 7.3.5; `x is LIT("Name")` is how the library
+    itself compares names), however many names the process has seen."""
+    names = b" ".join(b"/Fl%05d" % i for i in range(70000))
+    return {"mode": "stream", "flood": True, "data": b"[" + names + b"] [/Zq1 /Zq#31 /Zq1 /Other /Zq1] ",
+            "spelled": b"[/Fl00000 ... /Fl69999] [/Zq1 /Zq#31 /Zq1 /Other /Zq1]", "bufsizes": [4096], "features": ["name-flood"]}
+
+
+def run_flood(case):
+    from pdfminer.pdfparser import PDFStreamParser
+    from pdfminer.psparser import LIT, PSLiteral
+
+    classes = ["mode:stream", "f:name-flood"]
+    try:
+        p = PDFStreamParser(case["data"])
+        (_, big) = p.nextobject()
+        (_, small) = p.nextobject()
+    except BaseException as e:
+        return Outcome(classes, True, fail="reading 70000 names raised %s: %s" % (type(e).__name__, str(e)[:100]))
+    if len(big) != 70000 or any(not isinstance(n, PSLiteral) or n.name != "Fl%05d" % i for i, n in enumerate(big)):
+        return Outcome(classes, True, fail="an array of 70000 distinct names does not read back as those names")
+    a, b, c, o, d = small
+    if not (a is b and a is c and a is d and a is LIT("Zq1") and o is not a and o is LIT("Other")):
+        return Outcome(classes, True, fail="after 70000 other names, /Zq1 /Zq#31 /Zq1 read as %r: not one and the same name object "
+                       "(is LIT('Zq1'): %r)" % (small, a is LIT("Zq1")))
+    return Outcome(classes, True, fp=None, sample={"spelled": repr(case["spelled"])})
+
+
 def run_chain(case):
     classes = ["mode:stream", "f:deep-chain"] + ["f:" + f for f in case["features"]]
     for b in case["bufsizes"]:
@@ -94,6 +123,8 @@ def run_chain(case):
 
 
 def run_case(case):
+    if case.get("flood"):
+        return run_flood(case)
     if case.get("chain"):
         return run_chain(case)
     # the harness's own recursive helpers (serialiser, comparison, JSON encoding) need head-room for the 300-level
@@ -215,7 +246,7 @@ def run_shard(spec, ctx):
     if spec.get("chain"):
         from vlib.runner import enum_search
 
-        return enum_search(ctx, chain_cases(), run_case)
+        return enum_search(ctx, list(chain_cases()) + [flood_case()], run_case)
     if spec.get("deep"):
         from vlib.runner import enum_search
 
